@@ -75,6 +75,14 @@ func checkCase(c Case, out *outcome) error {
 			raOK = true
 		}
 	}
+	// wire.EvaluateValue is the library's own way of forcing a decoded value: it accepts exactly
+	// the inputs whose containers can all be read (the harness's element-by-element forcing above)
+	if v3, _, err3 := rd.ReadValue(t, 0); err3 == nil {
+		everr := wire.EvaluateValue(v3)
+		if (everr == nil) != raOK {
+			return ev.Errf("ra/evaluate-disagrees/"+k.String(), "wire.EvaluateValue err=%v, but reading every lazily decoded container element by element succeeds=%v", everr, raOK)
+		}
+	}
 	if raOK {
 		out.raAccepted, out.consumed, out.tree = true, int(off), raTree
 		if off < 0 || off > int64(len(in)) {
